@@ -11,6 +11,28 @@ from harness import boot
 boot.bootstrap()
 props = [json.loads(l) for l in open(os.path.join(ROOT, "properties.jsonl"))]
 PY = "/venv/bin/python"
+LEVEL = {
+ "C01": "Exact per generated case: the real test is run on every distinct ordering (or every IID path) of a generated null population and P(min p <= alpha) is compared with alpha for every attained alpha with exact rational arithmetic - no Monte-Carlo error. Bounded search over populations (N<=7 arbitrary, <=12 few-valued, <=40 skewed, IID horizon<=9) and configurations, so exploration, not proof; long-sample behaviour is argued from C05+C12+C13.",
+ "C02": "Generated ballot collections against an independent integer tally; iff-relations decided exactly (values are multiples of 1/2, shares are Fractions). Exploration over generated inputs: right level for a universally quantified input property with a cheap exact oracle.",
+ "C03": "Algebraic identity evaluated on generated CVR/MVR populations with phantoms, pooled batches, both style settings and all assorter kinds, including earlier planning passes on other CVR lists. Exploration; the identity is checked to 1e-9 on each case.",
+ "C04": "Differential test against brute force over all n! elimination orders and all true NEB/NEN assertions (<=6 candidates): soundness, sufficiency and emptiness-iff-impossible decided exactly per generated profile. Exploration bounded by candidate count.",
+ "C05": "Metamorphic relations (prefix invariance under tail replacement, truncation, reuse of the same object/array, dtype) with bit-for-bit equality. Exploration over generated samples and cut points.",
+ "C06": "Generated audits run through the documented pipeline; range predicate plus independent recomputation of which cards contribute and of their values. Exploration.",
+ "C07": "Reference model (union of each contest's first n_c cards in sample-number order) on generated card lists incl. 256-bit close sample numbers and earlier draws on the same contests. Exploration.",
+ "C08": "Accounting model for make_phantoms and a worst-case metamorphic relation for unfindable cards. Exploration.",
+ "C09": "Differential re-run of each assertion's configured test on its own data, and an exact iff oracle for completion incl. p-values exactly at the limit and second computations without reset. Exploration.",
+ "C10": "Rule-based state machine over audit histories (rounds x redraw/continue) with invariants after every round; histories shrink as one value. Exploration of histories up to 10 rounds.",
+ "C11": "Validity predicate on generated (configuration, sample) pairs stressing every region the property names. Exploration.",
+ "C12": "Differential test against reference products written from the published formulas (rtol 1e-9). Exploration.",
+ "C13": "Range predicates on shipped estimators/bets incl. tolerance-sized overshoots. Exploration.",
+ "C14": "The n<=4 sub-domain (every partial ranking x pair x eliminated set) is enumerated completely on every run; beyond it generated rankings, files and profiles. Exploration overall (exhaustive only for that sub-domain).",
+ "C15": "Brute-force minimax optimum vs. the search result (<=6 candidates), incl. extra auditable ballots, hints and earlier searches on the same objects. Exploration.",
+ "C16": "Reference construction of the documented hypothetical population and first-crossing oracle; integer equality. Exploration.",
+ "C17": "Reference model: manifest expanded into a list of cards; bijection checked on permutations of all valid sample numbers. Exploration.",
+ "C18": "Ordered-dict reference model for merging and the RAIRE reader. Exploration.",
+ "C19": "Grammar-generated exports vs. a reference reader plus order metamorphisms. Exploration.",
+ "C20": "Definition-level reference for every node plus brute force over all (n-1)! orders (<=6 candidates). Exploration.",
+}
 checks, na = [], []
 for p in props:
     pid = p["id"]
@@ -28,7 +50,7 @@ for p in props:
         "engine": "pbt-runner",
         "level_claimed": {
             "category": "exploration",
-            "text": getattr(m, "LEVEL_TEXT", "Bounded generated-input search against an explicit oracle; no violation found is not a proof of absence."),
+            "text": getattr(m, "LEVEL_TEXT", LEVEL.get(pid, "Bounded generated-input search against an explicit oracle; no violation found is not a proof of absence.")),
             "design_ref": f"DESIGN.md section 4 ({pid})",
         },
         "level_note": "Trusted: the oracle/reference model in checks/ and oracles/, Hypothesis, numpy; input domains as listed in the evidence file's assumptions.",
